@@ -695,7 +695,7 @@ pub fn def() -> PropertyDef {
     PropertyDef {
         id: "C06",
         scenarios: vec![Box::new(Typed(C06E2E { faulty: false })), Box::new(Typed(C06E2E { faulty: true }))],
-        rule: "Each run: real client and server, one stream in a generated role (client/server-opened x uni/bidi x direction), codes cycling through the boundaries of every varint length (0, 63, 64, 16383, 16384, 2^30-1, 2^30, 2^62-2, 2^62-1) and random 62-bit values, one of four histories: (reset) write 0..50 kB, optionally begin finishing, optionally let the network settle, reset(c) — the reader must see a prefix of the written bytes and then Reset(c), or, only if finishing began first, possibly everything and end-of-stream; (stop) the reader reads 0..3000 bytes and stops with c while the writer writes — every writer error must be Stopped(c), and once the stop has certainly arrived a further write, stopped(), finish(), stopped() again, another write and - a few round trips later - stopped(), finish() and write once more must all report Stopped(c); (finish) all bytes then end-of-stream, finish Ok, stopped() afterwards = Closed; (reset while queued, clean batch only) 1-9 further streams are opened, written to and reset with distinct codes while nobody accepts; each must afterwards be returned by accept and read Reset(its code); (unfinished, clean batch only) the writer writes 0..5000 bytes and never finishes, then the connection is closed on the reader's or on the writer's side: the reader - in a pending read and in a later one - must get an error, never a clean end-of-stream; (finish under partition, clean batch only) with the data or the acknowledgement direction blocked finish() must still be pending after 10 s simulated and complete Ok after the heal - also when the FIN had already been queued by an earlier finish() future that was dropped by a timeout, or by tokio's AsyncWriteExt::shutdown. Fault batch: loss / duplication / reordering. Non-trivial = the history ran to its observation point (and a fault fired in the fault batch); distinct = distinct plan hashes.",
+        rule: "Each run: real client and server, one stream in a generated role (client/server-opened x uni/bidi x direction), codes cycling through the boundaries of every varint length (0, 63, 64, 16383, 16384, 2^30-1, 2^30, 2^62-2, 2^62-1) and random 62-bit values, one of four histories: (reset) write 0..50 kB, optionally begin finishing, optionally let the network settle, reset(c) — the reader must see a prefix of the written bytes and then Reset(c), or, only if finishing began first, possibly everything and end-of-stream; a reset issued while that finish() attempt is still pending (FIN unacknowledged) must itself be accepted; (stop) the reader reads 0..3000 bytes and stops with c while the writer writes — every writer error must be Stopped(c), and once the stop has certainly arrived a further write, stopped(), finish(), stopped() again, another write and - a few round trips later - stopped(), finish() and write once more must all report Stopped(c); (finish) all bytes then end-of-stream, finish Ok, stopped() afterwards = Closed; (reset while queued, clean batch only) 1-9 further streams are opened, written to and reset with distinct codes while nobody accepts; each must afterwards be returned by accept and read Reset(its code); (unfinished, clean batch only) the writer writes 0..5000 bytes and never finishes, then the connection is closed on the reader's or on the writer's side: the reader - in a pending read and in a later one - must get an error, never a clean end-of-stream; (finish under partition, clean batch only) with the data or the acknowledgement direction blocked finish() must still be pending after 10 s simulated and complete Ok after the heal - also when the FIN had already been queued by an earlier finish() future that was dropped by a timeout, or by tokio's AsyncWriteExt::shutdown. Fault batch: loss / duplication / reordering. Non-trivial = the history ran to its observation point (and a fault fired in the fault batch); distinct = distinct plan hashes.",
         assumptions: vec![
             "after stop the model allows every outcome QUIC allows for writes racing the signal; only writes issued after network quiescence are required to fail",
             "quinn/rustls/tokio executed for real but trusted; current-thread runtime",
